@@ -8,7 +8,7 @@ def theorems(prop):
     p = os.path.join(ROOT, "lean", "UBidi", "Props", prop + ".lean")
     if not os.path.exists(p): return []
     src = open(p, encoding="utf-8").read()
-    return re.findall(r"^\s*theorem\s+([A-Za-z_][A-Za-z0-9_'.]*)", src, re.M)
+    return re.findall(r"^\s*theorem\s+([^\s:({\[]+)", src, re.M)
 
 NOTE = ("Trusted: Lean 4.33 kernel (axioms audited per theorem: propext, Classical.choice, Quot.sound only); the hand-written Model "
         "(tied to /repo by the differential correspondence run by this check, not by proof); the Spec as the reading of UAX #9 / the "
